@@ -33,6 +33,10 @@ type Profile struct {
 	Fracs      []string
 	// SettleBeforeValueChange injects claim_all before slashes and before blocks (C12/C13 main campaigns).
 	SettleBeforeValueChange bool
+	// SettleSlashPct: with SettleBeforeValueChange, percentage of slashes that are preceded by claim_all
+	// (0 means always). The remaining slashes hit positions with unclaimed rewards: the oracles
+	// stop judging exact amounts for such histories but keep their structural checks.
+	SettleSlashPct int
 	HugeAmounts             bool
 	InvalidPct              int  // percentage of user ops deliberately targeting invalid inputs
 	FocusDelPct             int  // percentage of delegator draws forced to delegator 0 (packs buckets)
@@ -493,12 +497,12 @@ func (g *Gen) Step() {
 		}
 		x.Apply(Op{K: KBlock, Dt: g.dt(), Fees: g.fees()})
 	case KSlashHook:
-		if g.p.SettleBeforeValueChange {
+		if g.p.SettleBeforeValueChange && (g.p.SettleSlashPct == 0 || g.pct("settle-slash", g.p.SettleSlashPct)) {
 			x.Apply(Op{K: KClaimAll})
 		}
 		x.Apply(Op{K: KSlashHook, V: g.slashTarget(s), Frac: g.frac()})
 	case KSlash:
-		if g.p.SettleBeforeValueChange {
+		if g.p.SettleBeforeValueChange && (g.p.SettleSlashPct == 0 || g.pct("settle-slash", g.p.SettleSlashPct)) {
 			x.Apply(Op{K: KClaimAll})
 		}
 		v := g.slashTarget(s)
